@@ -121,6 +121,44 @@ def pipe_case(rng):
     return src, result, log
 
 
+def exists_case(rng):
+    """exists: over a pipe of 1..3 alternatives, each succeeding or raising a chosen class, at several sites: the pipe moves on for the
+    lookup-type classes (ValueError included), exists: itself turns only AttributeError / LookupError / TypeError / NameError of the last
+    alternative into "no" — everything else propagates"""
+    pipe_caught = (AttributeError, NameError, LookupError, TypeError, ValueError)
+    exists_caught = (AttributeError, LookupError, TypeError, NameError)
+    n = rng.randint(1, 3)
+    alts = [rng.choice([None, 'KeyError', 'NameError', 'TypeError', 'ZeroDivisionError', 'RuntimeError', 'IndexError', 'AttributeError', 'ValueError',
+                        'ValueError', 'UnicodeError', 'AssertionError', 'OSError']) for _ in range(n)]
+    inner = ' | '.join("R('k%d', 'v%d'%s)" % (i, i, (", '%s'" % e) if e else '') for i, e in enumerate(alts))
+    site = rng.choice(['content', 'interp', 'condition', 'not'])
+    log = []
+    verdict = None
+    for i, e in enumerate(alts):
+        log.append('k%d' % i)
+        if e is None:
+            verdict = True
+            break
+        cls = getattr(builtins, e)
+        if i < n - 1 and issubclass(cls, pipe_caught):
+            continue
+        verdict = False if issubclass(cls, exists_caught) else ('exc', e)
+        break
+    if site == 'content':
+        src = '<p tal:content="exists: %s">x</p>' % inner
+        out = None if isinstance(verdict, tuple) else '<p>%d</p>' % int(verdict)
+    elif site == 'interp':
+        src = '<p>${exists: %s}</p>' % inner
+        out = None if isinstance(verdict, tuple) else '<p>%d</p>' % int(verdict)
+    elif site == 'condition':
+        src = '<p tal:condition="exists: %s">x</p>!' % inner
+        out = None if isinstance(verdict, tuple) else ('<p>x</p>!' if verdict else '!')
+    else:
+        src = '<p tal:condition="not: exists: %s">x</p>!' % inner
+        out = None if isinstance(verdict, tuple) else ('!' if verdict else '<p>x</p>!')
+    return src, (verdict if isinstance(verdict, tuple) else ('out', out)), log
+
+
 def prefixed_pipe_case(rng):
     """expression := (type ':')? line ('|' expression)?  — a type prefix on a later alternative takes the whole rest"""
     caught = (AttributeError, NameError, LookupError, TypeError, ValueError)
@@ -304,7 +342,8 @@ def oracle(ctx):
     nt = 0
     # pipes: first alternative that does not raise a lookup-type exception; others propagate; evaluated once, in order
     for _ in range(ctx.budget(600, 20000)):
-        src, result, log = pipe_case(ctx.rng) if ctx.rng.random() < 0.6 else prefixed_pipe_case(ctx.rng)
+        k3 = ctx.rng.random()
+        src, result, log = pipe_case(ctx.rng) if k3 < 0.45 else (prefixed_pipe_case(ctx.rng) if k3 < 0.75 else exists_case(ctx.rng))
         impl = pipeline.run_impl({'src': src, 'vars': [['R', {'fn': 'R'}]]})
         ctx.count('evaluations')
         nt += 1 if len(log) > 1 else 0
@@ -383,6 +422,20 @@ def oracle(ctx):
                           expected=want, actual=got)
     ctx.counters['nontrivial'] = ctx.counters.get('nontrivial', 0) + nt
     ctx.sample({'template': pipe_case(ctx.rng)[0]})
+    # D-04f (fixed): parameters (and local names) of a function defined in a code block are the function's own: template variables of the
+    # same names are still read afterwards
+    CB = [("<?python def f(x): return x * 2 ?><p>${x} ${f(3)}</p>", {'x': 'tv'}, '<p>tv 6</p>'),
+          ("<?python\ndef g(a, b=n):\n    return a + b\n?><p>${a} ${b} ${g(1)}</p>", {'a': 'A', 'b': 'B', 'n': 5}, '<p>A B 6</p>'),
+          ("<?python\ndef h(*args, **kw):\n    return len(args) + len(kw)\n?><p>${args}${kw}${h(1, k=2)}</p>", {'args': 'R', 'kw': 'K'}, '<p>RK2</p>')]
+    for src, kw, want in CB:
+        ctx.count('evaluations')
+        try:
+            got = PageTemplate(src)(**kw)
+        except Exception as e:
+            got = {'exc': type(e).__name__, 'msg': str(e).split('\n')[0][:100]}
+        if got != want:
+            ctx.violation('names are resolved from template variables first: a function parameter of a code block is local to the function',
+                          {'src': src, 'kwargs': repr(kw)}, expected=want, actual=got)
     # known finding D-04a: a non-matching case evaluates its expression twice
     r = pipeline.run_impl({'src': "<div tal:switch=\"R('sw', 3)\"><p tal:case=\"R('c1', 1)\">1</p><p tal:case=\"R('c2', 3)\">3</p></div>",
                            'vars': [['R', {'fn': 'R'}]]})
